@@ -167,8 +167,8 @@ impl Family for ScaleCodecFamily {
         let mut cases: Vec<Vec<String>> = Vec::new();
         // headers at in-slice offsets >= 2^20 (the 17th sub-chunk header sits at ~1 088 400)
         cases.push(big_region_encoder(3 * mib, 17, 10000, 600000, 0, "c"));
-        cases.push(big_region_encoder(3 * mib, 17, 0, 1_050_000, 1, "c"));
         if thorough {
+            cases.push(big_region_encoder(3 * mib, 17, 0, 1_050_000, 1, "c"));
             cases.push(big_region_encoder(2 * mib, 17, 23000, 300000, 2, "c"));
             cases.push(big_region_encoder(mib + 8192 * 10, 17, 1, 64008, 3, "c"));
             cases.push(big_region_encoder(3 * mib, 17, 500, 1_088_000, 4, "c"));
@@ -176,26 +176,26 @@ impl Family for ScaleCodecFamily {
         }
         // > 1 MiB through the default arena
         cases.push(streaming_encoder(if thorough { 330 } else { 60 }, if thorough { 4000 } else { 21000 }, "c", "drain_all", 0));
-        cases.push(streaming_encoder(20, 64008, "c", "drain_bytes 60000", 0));
         if thorough {
+            cases.push(streaming_encoder(20, 64008, "c", "drain_bytes 60000", 0));
             cases.push(streaming_encoder(40, 70000, "b", "drain_all", 1));
             cases.push(streaming_encoder(300, 5000, "a", "drain_all", 0));
             cases.push(streaming_encoder(25, 100000, "c", "drain_slices 1", 0));
             cases.push(streaming_encoder(1100, 1100, "c", "drain_all", 0));
         }
         // decoder
-        cases.push(big_decoder(2 * mib + 5000, "c", true));
         cases.push(split_decoder(mib + 70000, &[70000, 64, 65, 300000], "c"));
         if thorough {
+            cases.push(big_decoder(2 * mib + 5000, "c", true));
             cases.push(big_decoder(2 * mib + 5000, "b", false));
             cases.push(big_decoder(3 * mib, "a", true));
             cases.push(split_decoder(mib + 70000, &[4096, 100000], "a"));
             cases.push(split_decoder(2 * mib, &[65, 64008, 1 << 19], "b"));
         }
         // many pieces / slices / anchors
-        cases.push(many_pieces(1100, "a", 70, true));
         cases.push(many_pieces(1030, "a", 66, false));
         if thorough {
+            cases.push(many_pieces(1100, "a", 70, true));
             cases.push(many_pieces(4100, "a", 70, true));
             cases.push(many_pieces(4100, "f", 65, true));
             cases.push(many_pieces(2000, "b", 300, true));
@@ -208,6 +208,25 @@ impl Family for ScaleCodecFamily {
 
     fn gen_case(&self, rng: &mut Rng, _idx: u64, thorough: bool) -> Vec<String> {
         let mib = 1usize << 20;
+        if !thorough {
+            // quick tier: a few hundred KiB per case (the megabyte cases are the enumerated ones; the list
+            // model needs 5-20 s for each of them)
+            return match rng.below(4) {
+                0 => {
+                    let (n, len) = *rng.pick(&[(14usize, 21000usize), (5, 64008), (4, 70000), (70, 4000), (3, 100000)]);
+                    let m = *rng.pick(&["c", "c", "b", "a"]);
+                    let d = *rng.pick(&["drain_all", "drain_all", "drain_bytes 60000", "drain_slices 2"]);
+                    streaming_encoder(n, near(rng, len, 1), m, d, rng.below(2))
+                }
+                1 => {
+                    let len = near_of(rng, &[INIT + SUB, INIT + 2 * SUB, INIT + 4 * SUB, 200000], 1);
+                    let cuts = [*rng.pick(&[64usize, 65, 4096, 70000]), *rng.pick(&[1usize, 30000, 64008, 1 << 17])];
+                    split_decoder(len, &cuts, *rng.pick(&["c", "b", "a"]))
+                }
+                2 => many_pieces(near_of(rng, &[256usize, 300], 2), *rng.pick(&["a", "a", "f", "b"]), rng.range(65, 80) as usize, true),
+                _ => many_pieces(near_of(rng, &[256usize, 300, 1030], 2), *rng.pick(&["a", "b", "c"]), rng.range(65, 80) as usize, false),
+            };
+        }
         match rng.below(6) {
             0 | 1 => {
                 let region = *rng.pick(&[mib + 4096 * 20, 2 * mib, 3 * mib, 3 * mib, 4 * mib]);
